@@ -263,13 +263,13 @@ def _same(val, snap):
     if sps.issparse(val):
         if val.format != snap["fmt"] or val.shape != snap["shape"] or str(val.data.dtype) != snap["dtype"]:
             return False
-        if not np.array_equal(val.data, snap["data"]):
+        if val.data.tobytes() != snap["data"].tobytes():  # bytes: a NaN entry equals itself
             return False
         if val.format == "coo":
             return np.array_equal(val.row, snap["row"]) and np.array_equal(val.col, snap["col"])
         return np.array_equal(val.indices, snap["indices"]) and np.array_equal(val.indptr, snap["indptr"])
     if isinstance(val, np.ndarray):
-        return str(val.dtype) == snap["dtype"] and val.shape == snap["shape"] and np.array_equal(val, snap["arr"])
+        return str(val.dtype) == snap["dtype"] and val.shape == snap["shape"] and np.ascontiguousarray(val).tobytes() == snap["arr"].tobytes()
     return val == snap["val"] or (val != val and snap["val"] != snap["val"])
 
 
